@@ -159,6 +159,7 @@ type vcluster struct {
 	ports   [][3]int // redis, http, raft
 	extra   []string // further vnode flags
 	env     []string // further environment of every child (VAR=value)
+	extraFor map[int][]string // further vnode flags of one node (a later flag overrides an earlier one)
 	kids    []*vchild
 	starts  int
 	logSeq  int
@@ -208,8 +209,14 @@ func (cl *vcluster) noteWhiteBox(i int, line string) {
 	defer cl.sentMu.Unlock()
 	if strings.HasPrefix(line, "REPLAYED ") {
 		cl.wb = append(cl.wb, trace.M{"ev": "replayed", "n": i, "wal_last": kv["wal_last"], "raft_last": kv["raft_last"]})
-	} else if len(cl.wb) < 64 {
+	} else if len(cl.wb) >= 64 {
+		return
+	} else if strings.HasPrefix(line, "PUBLISHED ") {
 		cl.wb = append(cl.wb, trace.M{"ev": "published", "n": i, "pub": kv["pub"], "saved": kv["saved"]})
+	} else if strings.HasPrefix(line, "APPENDED ") {
+		cl.wb = append(cl.wb, trace.M{"ev": "appended", "n": i, "ents_last": kv["ents_last"], "raft_last": kv["raft_last"], "snap": kv["snap"]})
+	} else { // SNAPENTS: a Ready that carried a snapshot AND entries (counted as evidence; as "appended" line that holds)
+		cl.wb = append(cl.wb, trace.M{"ev": "appended", "n": i, "ents_last": kv["ents_last"], "raft_last": kv["ents_last"], "snap": kv["snap"]})
 	}
 }
 
@@ -245,6 +252,7 @@ func (cl *vcluster) start(i int, env ...string) (*vchild, error) {
 	args := []string{"-id", strconv.Itoa(i), "-n", strconv.Itoa(cl.n), "-root", cl.root,
 		"-engine", cl.engine, "-ports", cl.portsFlag()}
 	args = append(args, cl.extra...)
+	args = append(args, cl.extraFor[i]...)
 	cmd := exec.Command(cl.vnode, args...)
 	cl.logSeq++
 	lf, err := os.Create(filepath.Join(cl.root, fmt.Sprintf("node%d.%d.log", i, cl.logSeq)))
@@ -283,7 +291,8 @@ func (cl *vcluster) start(i int, env ...string) (*vchild, error) {
 			if strings.HasPrefix(sc.Text(), "STATUS ") {
 				ch = k.stat
 			}
-			if strings.HasPrefix(sc.Text(), "REPLAYED ") || strings.HasPrefix(sc.Text(), "PUBLISHED ") {
+			if strings.HasPrefix(sc.Text(), "REPLAYED ") || strings.HasPrefix(sc.Text(), "PUBLISHED ") ||
+				strings.HasPrefix(sc.Text(), "APPENDED ") || strings.HasPrefix(sc.Text(), "SNAPENTS ") {
 				cl.noteWhiteBox(i, sc.Text())
 				continue
 			}
